@@ -307,7 +307,8 @@ def main(argv=None):
         try:
             futs = [ex.submit(_batch, t) for t in tasks]
             fut_start = {f: t[2] for f, t in zip(futs, tasks)}
-            wall_cap = getattr(mod, 'WALL_CAP', {}).get(tier, 3600) if hasattr(mod, 'WALL_CAP') else 3600
+            wall_cap = getattr(mod, 'WALL_CAP', {}).get(tier, 3600) if hasattr(mod, 'WALL_CAP') else \
+                (7200 if tier == 'thorough' else 3600)
             try:
                 for fut in cf.as_completed(futs, timeout=wall_cap):
                     parts.append((fut_start[fut], fut.result()))
